@@ -690,6 +690,27 @@ def check_CR(prop, tier, rule, text_assume, known_devs=(), level="model_checking
             v2, k2, s2, d2 = trace_run(R, "Trace_CR", tcfg2, gen_traces, "T_CR_C05reader")
             R.viol += v2
             R.extra["reader_level_traces"] = len(gen_traces)
+            # vacuity guard: the clause judges the events of the binding the port names - every WSDL case must have one
+            names = (vocab.get("names") or {})
+            judged, wsdl_cases, cur_b, cur_hit = 0, 0, None, False
+            for tf in gen_traces:
+                for line in open(tf):
+                    if '"ev":"case"' in line or '"ev": "case"' in line:
+                        if cur_b is not None and not cur_hit:
+                            raise z.ToolError("C05 reader clause is vacuous: no soap_binding event of the used binding in a WSDL case")
+                        cs = json.loads(line).get("case", {})
+                        bl = cs.get("bindings") or []
+                        cur_b = [names.get(b, {}).get("xml", b) for b in bl] if bl else None
+                        cur_hit = False
+                        wsdl_cases += 1 if bl else 0
+                    elif '"soap_binding"' in line and cur_b is not None:
+                        nm = json.loads(line).get("name")
+                        if any(nm in (b, b + "12") for b in cur_b):
+                            cur_hit = True
+                            judged += 1
+            if cur_b is not None and not cur_hit:
+                raise z.ToolError("C05 reader clause is vacuous: no soap_binding event of the used binding in a WSDL case")
+            R.extra["reader_bindings_judged"] = judged
     if prop in CR_HOOKS:
         CR_HOOKS[prop](R)
     R.extra["pipeline"] = {k: v for k, v in stats.items() if k != "mc"}
